@@ -28,7 +28,7 @@ def run_one(m, tier, keep=False):
             return 'STALE (pattern not found)', ''
         text = text.replace(m['old'], m['new'], 1)
         open(path, 'w').write(text)
-        env = dict(os.environ, VERIF_REPO_SRC=src, VERIF_OUT=os.path.join(tmp, 'out'), VERIF_STRICT='1')
+        env = dict(os.environ, VERIF_REPO_SRC=src, VERIF_OUT=os.path.join(tmp, 'out'), VERIF_STRICT='1', VERIF_STOP_ON_VIOLATION='1')
         if NPROC:
             env['VERIF_NPROC'] = str(NPROC)
         if m.get('units'):
